@@ -142,7 +142,7 @@ def h_history(ctx, skeleton=(), exch='futures'):
     ctx.event('history-complete')
 
 
-def skeletons(length, exch, max_orders=3):
+def skeletons(length, exch, max_orders=3, with_ua=True):
     kinds = [['S', 'buy', 'LIMIT', 0], ['S', 'sell', 'LIMIT', 0], ['S', 'buy', 'MARKET', 0], ['S', 'sell', 'STOP', 1]]
     if exch == 'spot':
         kinds = [['S', 'buy', 'LIMIT', 0], ['S', 'buy', 'MARKET', 0], ['S', 'sell', 'LIMIT', 1], ['S', 'sell', 'STOP', 1]]
@@ -166,7 +166,7 @@ def skeletons(length, exch, max_orders=3):
             rec(prefix + [['CALL']], nsub)
             if prefix[-1] != ['PM']:
                 rec(prefix + [['PM']], nsub)
-            if prefix[-1] != ['UA']:
+            if with_ua and prefix[-1] != ['UA']:
                 rec(prefix + [['UA']], nsub)
 
     rec([], 0)
@@ -235,7 +235,7 @@ def _jobs(tier):
                     continue
                 jobs.append(Job('%s_%s' % (exch[0], _name(s)), h_history, {'skeleton': s, 'exch': exch}))
     for kw in ([dict(n=3, kind='T1', side='long', exch='futures'), dict(n=3, kind='T3m', side='long', exch='futures', sym=[1])] if tier == 'quick' else
-               [dict(n=3, kind=k, side=sd, exch='futures') for k in ('T1', 'T3', 'T8') for sd in ('long', 'short')] +
+               [dict(n=3, kind=k, side=sd, exch='futures') for k in ('T1', 'T8') for sd in ('long', 'short')] +
                [dict(n=3, kind='T1', side='long', exch='spot'), dict(n=3, kind='T3m', side='long', exch='futures', sym=[1]), dict(n=3, kind='T3m', side='short', exch='futures', sym=[1]), dict(n=4, kind='T3m', side='long', exch='futures', sym=[1, 2])]):
         jobs.append(Job('sess_' + '_'.join(str(v) for v in kw.values()), h_session, kw))
     return jobs
